@@ -19,7 +19,27 @@ DT = F(1, 8)
 
 def gen_case(rng, tier, force_big_edge=False):
     for _ in range(600):
-        mdl = G.gen_model(rng, max_nodes=3, depth=0, hostile=False, overrides=rng.random() < 0.3, linear=True)
+        delays = rng.random() < 0.2 and not force_big_edge
+        if delays:
+            # a circuit with discrete and distributed edge delays (C09/C11): every row of the sweep keeps its own buffers and kernels
+            from . import c09, c11
+            mdl = c09.gen_simple(rng)
+            pairs = {}
+            for e in mdl["circuit"]["edges"]:
+                pairs[(e["src"], e["tgt"])] = pairs.get((e["src"], e["tgt"]), 0) + 1
+            for e in mdl["circuit"]["edges"]:
+                r = rng.random()
+                if pairs[(e["src"], e["tgt"])] > 1:
+                    continue
+                if r < 0.45:
+                    d, sp_ = rng.choice(c11.DS)
+                    e["delay"], e["spread"] = C.q2s(d), C.q2s(sp_)
+                elif r < 0.75:
+                    e["delay"] = C.q2s(DT * rng.choice([2, 3]))
+            if not any(e.get("delay") for e in mdl["circuit"]["edges"]):
+                continue
+        else:
+            mdl = G.gen_model(rng, max_nodes=3, depth=0, hostile=False, overrides=rng.random() < 0.3, linear=True)
         flat = M.flatten(mdl)
         sp = M.state_paths(flat)
         if not sp or len(set(sp)) != len(sp) or len(sp) > 6:
@@ -38,7 +58,7 @@ def gen_case(rng, tier, force_big_edge=False):
             # are merged: vectorized sweeps use edges that leave state variables only
             edges = [e for e in edges if e["src"] in sp]
         mdl["circuit"]["edges"] = edges
-        edge_ops = bool(edges) and rng.random() < 0.3 and not force_big_edge
+        edge_ops = bool(edges) and rng.random() < 0.3 and not force_big_edge and not delays
         if edge_ops:
             # some edges carry an edge operator (coupling function / dynamic synapse): the rows of a sweep share one vectorized edge operator
             from . import c04
@@ -68,6 +88,19 @@ def gen_case(rng, tier, force_big_edge=False):
             else:
                 continue
             keys.append(kn)
+        kd = None
+        if delays and rng.random() < 0.6:
+            # the mean delay of one gamma-kernel edge is itself swept, in blocks of equal values followed by another value
+            # (rows with equal kernels share a chain in the combined network, the next block needs its own)
+            gam = [e for e in edges if e.get("spread") is not None]
+            if gam:
+                e = rng.choice(gam)
+                sp_, ds_ = rng.choice([(F(1, 2), [F(1, 2), F(1)]), (F(1, 4), [F(1, 2), F(1, 4)])])
+                e["spread"], e["delay"] = C.q2s(sp_), C.q2s(ds_[0])
+                kd = ("KD", [e["src"], e["tgt"]], ds_)
+                pmap["KD"] = {"vars": ["delay"], "edges": [[e["src"], e["tgt"]]]}
+                keys = [k for k in keys if not ("edges" in pmap[k] and [e["src"], e["tgt"]] in [x[:2] for x in pmap[k]["edges"]])] + ["KD"]
+                pmap = {k: pmap[k] for k in keys}
         if not keys or (force_big_edge and "edges" not in pmap[keys[0]]):
             continue
         # two keys must not address the same target
@@ -86,6 +119,17 @@ def gen_case(rng, tier, force_big_edge=False):
             lens = [n] * len(keys)
         grid = {}
         for kn, ln in zip(keys, lens):
+            if kd and kn == "KD":
+                ds_ = kd[2]
+                if permute:
+                    vals = ds_[:ln] if ln <= 2 else [ds_[0], ds_[1], ds_[0]][:ln]
+                    vals = list(dict.fromkeys(vals))
+                    lens[keys.index(kn)] = len(vals)
+                else:
+                    nb = rng.randint(1, ln)
+                    vals = sorted([ds_[0]] * nb + [ds_[1]] * (ln - nb), key=lambda v: ds_.index(v))
+                grid[kn] = [C.q2s(v) for v in vals]
+                continue
             if "edges" in pmap[kn] and big:
                 vals = [F(k, 16) for k in range(17 - ln, 17)]           # dyadic, largest weight exactly 1
             else:
@@ -101,20 +145,26 @@ def gen_case(rng, tier, force_big_edge=False):
             frame_index = list(range(nrows))
             if rng.random() < 0.6:
                 rng.shuffle(frame_index)
-        solver = rng.choice(["euler", "euler", "heun"])
+        solver = rng.choice(["euler", "euler", "heun"]) if not delays else "euler"      # (Heun advances ring buffers twice per step: C09's known finding)
         steps = rng.choice([4, 6])
         ext = []
-        if nrows < 10 and rng.random() < 0.3:
+        if nrows < 10 and rng.random() < 0.3 and not delays:      # (the augmented-system oracle of the delay stratum takes no extrinsic inputs)
             ins = [f"{n['path']}/{o['name']}/{d['name']}" for n in flat["nodes"] for o in n["ops"] for d in o["vars"] if M.kind_of(o, d) == "input"
                    and not any(e["tgt"] == [n["path"], o["name"], d["name"]] for e in flat["edges"]) and not any(x["output"] == d["name"] for x in n["ops"])]
             if ins:
                 ext = [{"tgt": rng.choice(ins), "samples": [C.q2s(F(rng.randint(-4, 4), 2)) for _ in range(steps)]}]
         case = {"mdl": mdl, "grid": grid, "param_map": pmap, "permute": permute, "as_frame": as_frame, "frame_index": frame_index, "solver": solver, "steps": steps,
-                "vectorize": vectorize, "ext_inputs": ext, "as_path": rng.random() < 0.3 and not edge_ops, "edge_ops": edge_ops}
+                "vectorize": vectorize, "ext_inputs": ext, "as_path": rng.random() < 0.3 and not edge_ops and not delays, "edge_ops": edge_ops, "delays": delays}
         # admissible: every row's exact trajectory stays within float64
         try:
             ok = True
             for row in expected_rows(case):
+                if delays:
+                    _, mb = row_traj(row_case(case, row))
+                    if mb > 48:
+                        ok = False
+                        break
+                    continue
                 o = N.oracle_traj(row_case(case, row))
                 if "error" in o or o["bits"] > 48:
                     ok = False
@@ -151,9 +201,22 @@ def row_case(case, row):
             for e in pm["edges"]:
                 for ed in mdl["circuit"]["edges"]:
                     if ed["src"] == e[0] and ed["tgt"] == e[1]:
-                        ed["w"] = str(val)
+                        ed["delay" if pm["vars"] == ["delay"] else "w"] = str(val)
     mdl["post_values"] = pv
     return {"mdl": mdl, "run": {"T": str(DT * case["steps"]), "dt": str(DT), "solver": case["solver"]}, "ext_inputs": case["ext_inputs"], "interp": {}}
+
+
+def row_traj(rc, drv=None):
+    """exact trajectory of one row's circuit when it has delayed edges: the explicitly augmented system of C11 (chains) with C09's discrete shifts"""
+    from . import c11
+    flat = M.flatten(rc["mdl"])
+    aug, _ = c11.expand(flat, 0, drv, dt=rc["run"]["dt"])
+    rows, mb = c11.oracle_traj_flat(aug, rc["run"])
+    if drv is not None:
+        tr = drv.ask(N.model_traj_request({"mdl": None, "run": rc["run"], "ext_inputs": [], "interp": {}}, aug))
+        if tr.get("rows") != rows:
+            raise C.HarnessError("Lean trajectory of the augmented row circuit and the Fraction oracle disagree")
+    return rows, mb
 
 
 def impl_sweep(case):
@@ -221,7 +284,7 @@ def check(tier, seed, replay=None):
         keys = list(case["grid"])
         kinds = "+".join(sorted({"edge" if "edges" in case["param_map"][k] else "node" for k in keys}))
         multi = any(len(pm.get("nodes", [])) * len(pm["vars"]) > 1 or len(pm.get("edges", [])) > 1 for pm in case["param_map"].values())
-        rep.count(("permuted" if case["permute"] else "linear") + ("-frame" if case["as_frame"] else "") + "-" + kinds + ("-input" if case["ext_inputs"] else "") + ("-yamlpath" if case.get("as_path") else "") + ("-edgeops" if case.get("edge_ops") else ""),
+        rep.count(("permuted" if case["permute"] else "linear") + ("-frame" if case["as_frame"] else "") + "-" + kinds + ("-input" if case["ext_inputs"] else "") + ("-yamlpath" if case.get("as_path") else "") + ("-edgeops" if case.get("edge_ops") else "") + ("-delays" if case.get("delays") else ""),
                   json.dumps(case, sort_keys=True), nontrivial=multi and len(keys) >= 2)
         if "error" in im:
             bad.append((case, [("raises", im)]))
@@ -250,13 +313,16 @@ def check(tier, seed, replay=None):
                 bycol.setdefault((col[0], col[1] if len(col) > 1 else exp_labels[0]), []).append(vals)
             for lb, r in zip(exp_labels, rows):
                 rc = row_case(case, r)
-                flat = M.flatten(rc["mdl"])
-                tr = drv.ask(N.model_traj_request(rc, flat))
-                if "rows" not in tr:
-                    raise C.HarnessError("Lean model failed on a sweep row: " + json.dumps(tr)[:200])
-                orc = N.oracle_traj(rc)
-                if orc["rows"] != tr["rows"]:
-                    raise C.HarnessError("Lean trajectory and Fraction oracle disagree: " + json.dumps(case)[:300])
+                if case.get("delays"):
+                    tr = {"rows": row_traj(rc, drv)[0]}
+                else:
+                    flat = M.flatten(rc["mdl"])
+                    tr = drv.ask(N.model_traj_request(rc, flat))
+                    if "rows" not in tr:
+                        raise C.HarnessError("Lean model failed on a sweep row: " + json.dumps(tr)[:200])
+                    orc = N.oracle_traj(rc)
+                    if orc["rows"] != tr["rows"]:
+                        raise C.HarnessError("Lean trajectory and Fraction oracle disagree: " + json.dumps(case)[:300])
                 for ok_, path in im["outputs"].items():
                     exp = [row[path] for row in tr["rows"]]
                     got = bycol.get((ok_, lb))
